@@ -387,9 +387,13 @@ def handle_rejections(ctx, results, rerun, self_desc=None):
                 ctx.violations.append((p, "rejected at event %s" % (json.dumps(bad_ev)[:300],)))
             else:
                 flaky += 1
+    if not hasattr(ctx, "known_status"):
+        ctx.known_status = {}
     for k in known:
-        ctx.known.append("KNOWN-FINDING: property=%s %s: %s (reproduced=%s in this run)" %
-                         (ctx.pid, k["id"], k["what"], "yes" if k["id"] in reproduced else "no"))
+        prev = ctx.known_status.get(k["id"], (k, False))
+        ctx.known_status[k["id"]] = (k, prev[1] or k["id"] in reproduced)
+    ctx.known = ["KNOWN-FINDING: property=%s %s: %s (reproduced=%s in this run)" %
+                 (ctx.pid, k["id"], k["what"], "yes" if rep else "no") for k, rep in ctx.known_status.values()]
     if flaky and not ctx.violations:
         raise Infra("%d rejected case(s) were accepted when re-run alone (flaky); not reported as violations" % flaky)
     ctx.cov["rejected_total"] = seen
